@@ -10,7 +10,7 @@ From Coq Require Import List Arith ZArith Bool.
 From MomoCommon Require GenPrelude.
 From C05 Require Import ArrayShift ArrayModel ShiftProofs FilterProofs ArrayProofs SegProofs.
 From C05 Require GrowProofs Gen_Grow GuardProofs Gen_GuardsShifter Gen_GuardsArray Gen_GuardsSeg.
-From C05 Require Gen_ShiftLoops ShiftLoopProofs Gen_IndexOf IndexOfProofs.
+From C05 Require Gen_ShiftLoops ShiftLoopProofs Gen_IndexOf IndexOfProofs InsertGlue.
 Import ListNotations.
 
 (* ArrayShifter::InsertNogrow(array, index, count, const Item& item): for EVERY array contents l (elements may even be
@@ -531,3 +531,50 @@ Theorem C05_array_move_construct_and_swap :
     array_move_construct V ic a = (a, {| body := arr_ofo [] ic; allocs := allocs V a |}) /\ array_swap V a b = (b, a).
 Proof. exact ArrayProofs.array_move_construct_and_swap. Qed.
 Print Assumptions C05_array_move_construct_and_swap.
+
+(* ================= the five LOOPS of ArrayShifter::InsertNogrow, GENERATED from the real template code ================= *)
+(* for every valid call (both branches: index + count < n, and the branch with appended copies) whose item is a cell in front of the insertion
+   point or outside the array's new extent (external object / ItemHandler temporary): count = n + count, the cells below index untouched,
+   [index, index + count) hold THE VALUE THE ITEM HAD WHEN THE CALL STARTED, the old tail shifted up by count, everything beyond untouched *)
+Theorem C05_shift_insert_spec :
+  forall (items : Z -> Z) (cnt cap_ index count it : Z),
+    (0 <= index)%Z -> (index <= cnt)%Z -> (0 <= count)%Z -> (cnt + count <= cap_)%Z -> (cap_ < ShiftLoopProofs.U64 - 1)%Z ->
+    (it < index \/ cnt + count <= it)%Z ->
+    exists items', Gen_ShiftLoops.ShiftInsert items cnt cap_ index count it = GenPrelude.Ok (tt, items', (cnt + count)%Z) /\
+      (forall j, (j < index)%Z -> items' j = items j) /\
+      (forall j, (index <= j < index + count)%Z -> items' j = items it) /\
+      (forall j, (index + count <= j < cnt + count)%Z -> items' j = items (j - count)%Z) /\
+      (forall j, (cnt + count <= j)%Z -> items' j = items j).
+Proof. exact ShiftLoopProofs.shift_insert_spec. Qed.
+Print Assumptions C05_shift_insert_spec.
+
+(* refinement: the generated InsertNogrow and the hand model's insert_nogrow_copies (C05_insert_copies_refines) compute the same sequence *)
+Theorem C05_shift_insert_refines_model :
+  forall (self_move after_move : Z -> option Z) (items : Z -> Z) (n index count r : nat) (x : arg Z) (it : Z),
+    index <= n -> count <= r -> (Z.of_nat (n + r) < ShiftLoopProofs.U64 - 1)%Z -> ShiftLoopProofs.item_cell items n index count x it ->
+    exists items',
+      Gen_ShiftLoops.ShiftInsert items (Z.of_nat n) (Z.of_nat (n + r)) (Z.of_nat index) (Z.of_nat count) it =
+        GenPrelude.Ok (tt, items', Z.of_nat (n + count)) /\
+      insert_nogrow_copies Z self_move after_move true (arr_ofo (map Some (ShiftLoopProofs.list_of items n)) r) index count x =
+        Ok (arr_ofo (map Some (ShiftLoopProofs.list_of items' (n + count))) (r - count)).
+Proof. exact ShiftLoopProofs.shift_insert_refines_model. Qed.
+Print Assumptions C05_shift_insert_refines_model.
+
+(* Array::Insert(index, count, item) END TO END on generated pieces (Insert_prefix, pvIndexOf, GrowCapacity, ShiftInsert; the six statements
+   of Array.h glued in InsertGlue.v and corresponded with the real function): the item is ANY element of the array (any position) or an
+   external object, the capacity may or may not suffice: on every path ("grow || aliased -> ItemHandler copy first", or used in place) the
+   count inserted cells hold the item's PRE-CALL value, the prefix is untouched, the tail is shifted up by count *)
+Theorem C05_gen_array_insert_spec :
+  forall (growOnReserve : bool) (items : Z -> Z) (cnt cap_ base index count it ptr tmp : Z),
+    (0 <= index)%Z -> (index <= cnt)%Z -> (cnt <= cap_)%Z -> (cap_ < InsertGlue.U64 - 1)%Z -> (0 <= count)%Z -> (cnt + count < InsertGlue.U64 - 1)%Z ->
+    (0 <= base)%Z -> (base + cnt < InsertGlue.U64)%Z -> (0 <= ptr < InsertGlue.U64)%Z -> (InsertGlue.U64 <= tmp)%Z ->
+    ((0 <= it < cnt)%Z /\ ptr = (base + it)%Z \/ (InsertGlue.U64 <= it)%Z /\ (ptr < base \/ base + cnt <= ptr)%Z) ->
+    (forall r, Gen_Grow.GrowCapacity growOnReserve cap_ (cnt + count) 0 false = GenPrelude.Ok r -> (r < InsertGlue.U64 - 1)%Z) ->
+    exists items' cap', InsertGlue.gen_array_insert growOnReserve items cnt cap_ base index count it ptr tmp =
+                          GenPrelude.Ok (items', (cnt + count)%Z, cap') /\
+      (cnt + count <= cap')%Z /\
+      (forall j, (0 <= j < index)%Z -> items' j = items j) /\
+      (forall j, (index <= j < index + count)%Z -> items' j = items it) /\
+      (forall j, (index + count <= j < cnt + count)%Z -> items' j = items (j - count)%Z).
+Proof. exact InsertGlue.gen_array_insert_spec. Qed.
+Print Assumptions C05_gen_array_insert_spec.
